@@ -23,7 +23,7 @@ def hashseed_for(seed):
     return HASHSEEDS[seed % len(HASHSEEDS)]
 
 
-_CLS = re.compile(r'_(c?\d+)$')
+_CLS = re.compile(r'_(c?\d+|mysql|postgresql|sqlite|mssql|oracle)$')
 
 
 def family_classes(corpus):
@@ -73,7 +73,9 @@ def strata(corpus, ref):
 
 
 def _strategy(rng, est):
-    k = _weighted(rng, [('bernoulli', 5), ('pct', 3), ('rr', 2)])
+    k = _weighted(rng, [('bernoulli', 4), ('pct', 3), ('rr', 2), ('focus', 3)])
+    if k == 'focus':
+        return {'kind': k, 'p': rng.choice([0.3, 0.5, 1.0]), 'pick': rng.randrange(1 << 20)}
     if k == 'bernoulli':
         return {'kind': k, 'p': rng.choice([0.001, 0.003, 0.01, 0.02, 0.05])}
     if k == 'pct':
